@@ -114,7 +114,10 @@ class StubHTTPSession:
         c.urls.append(request.url_info.url)
         c.requests.append(request)
         c.events.append(('start', request.url_info.url))
-        beh = c.answer(len(c.sent) - 1, request)
+        k = len(c.sent) - 1
+        if c.yields:
+            yield from asyncio.sleep(0)         # the request is on the wire; other items get to run before the response arrives
+        beh = c.answer(k, request)
         if isinstance(beh, str):
             raise ERRORS[beh]()
         code, loc = beh[0], beh[1]
@@ -132,6 +135,8 @@ class StubHTTPSession:
     def download(self, file=None, duration_timeout=None):
         if self.body_error:
             raise ERRORS[self.body_error]()
+        if self.client.yields:
+            yield from asyncio.sleep(0)
         body = self.client.body_for(self.resp)
         self.resp.body = file if isinstance(file, Body) else Body(file)
         if body:
@@ -166,6 +171,7 @@ class StubHTTPClient:
         self.events = []
         self.bodies = bodies or {}
         self.held = 0                           # sessions that still hold a connection
+        self.yields = False                     # True: start() and download() suspend once (for interleavings)
 
     def answer(self, k, request):
         if self._answer:
